@@ -219,8 +219,9 @@ def pkOk (env : KeyEnv) (p : VParams) (k : Key) : Bool :=
     && !(!p.allowUncompressed && isUnc env k)
     && !(!p.allowXOnly && isXOnly env k)
 
-/-- the `d:` / `or_i` permission of the context (the part of the per-node match of
-`validate_non_top_level` that the compiler is known not to respect in Bare / Legacy) -/
+/-- the `d:` / `or_i` permission of the context (kept apart from the rest of the per-node match
+of `validate_non_top_level`: it is the restriction the compiler once ignored in Bare / Legacy,
+defect F13, and the driver names it separately in its diagnostics) -/
 def nodeIfOk (p : VParams) : Ms → Bool
   | .dupIf _ => p.allowDupIf
   | .orI _ _ => p.allowOrI
